@@ -555,4 +555,86 @@ theorem aligned_forall₂ (res : Nat → Nat → Except Err (Nat × Bytes)) (N :
       obtain ⟨h1, _, h3, h4⟩ := h
       exact .cons ⟨h1, h3 N (by simpa using hN)⟩ (ih as h4 (by simp at hN; omega))
 
+/-! ### walking a zlib stream in slices -/
+
+theorem take_min_length (l : Bytes) (k : Nat) : l.take (min k l.length) = l.take k := by
+  by_cases h : k ≤ l.length
+  · rw [Nat.min_eq_left h]
+  · rw [Nat.min_eq_right (by omega), List.take_length, List.take_of_length_le (by omega)]
+
+theorem take_split (buf : Bytes) (pos n : Nat) :
+    buf.take pos ++ (buf.drop pos).take n = buf.take (pos + n) := by
+  rw [List.take_add]
+
+theorem zlibWalkAt_spec (B L : Nat) (buf : Bytes) (hB : 0 < B) (hL : L < buf.length) :
+    ∀ (fuel pos : Nat) (fed : Bytes), pos ≤ L → L + 1 - pos ≤ fuel → fed = buf.take pos →
+      zlibWalkAt 1 B L buf fuel pos fed = some (buf.take L, L) := by
+  intro fuel
+  induction fuel with
+  | zero => intro pos fed h1 h2 _; omega
+  | succ fuel ih =>
+    intro pos fed hpos hfuel hfed
+    have hlen : (slice buf pos B).length = min B (buf.length - pos) := by simp [slice]
+    have hne : (slice buf pos B).isEmpty = false := by
+      cases h : slice buf pos B with
+      | nil => rw [h] at hlen; simp at hlen; omega
+      | cons _ _ => rfl
+    simp only [zlibWalkAt, hne, Bool.false_eq_true, if_false, if_true]
+    by_cases hdone : 0 < pos + (slice buf pos B).length - L
+    · simp only [hdone, decide_true, if_true]
+      have hleft : ¬ (pos + (slice buf pos B).length - L = 0) := by omega
+      simp only [pyDropLast, hleft, if_false]
+      have e1 : (slice buf pos B).length - (pos + (slice buf pos B).length - L) = L - pos := by omega
+      have e2 : pos + (slice buf pos B).length - (pos + (slice buf pos B).length - L) = L := by omega
+      rw [e1, e2, hfed]
+      have : (slice buf pos B).take (L - pos) = (buf.drop pos).take (L - pos) := by
+        simp only [slice, List.take_take]
+        congr 1
+        omega
+      rw [this, take_split, show pos + (L - pos) = L by omega]
+    · simp only [hdone, decide_false, Bool.false_eq_true, if_false]
+      apply ih (pos + (slice buf pos B).length) _ (by omega) (by omega)
+      rw [hfed]
+      have hfull : slice buf pos B = (buf.drop pos).take (slice buf pos B).length := by
+        rw [hlen]
+        have : buf.length - pos = (buf.drop pos).length := by simp
+        rw [this, take_min_length]
+        rfl
+      conv => lhs; rw [hfull]
+      rw [take_split]
+
+theorem zlibWalkStream_spec (L : Nat) : ∀ (chunks : List Bytes) (cum : Nat) (fed : Bytes),
+    (∀ c ∈ chunks, c ≠ []) → fed.length = cum → cum ≤ L → L < (fed ++ chunks.flatten).length →
+    ∃ u tail, zlibWalkStream L chunks cum fed = some ((fed ++ chunks.flatten).take L, u) ∧
+      fed ++ chunks.flatten = (fed ++ chunks.flatten).take L ++ u ++ tail ∧ u ≠ [] := by
+  intro chunks
+  induction chunks with
+  | nil => intro cum fed _ hf hc hl; simp at hl; omega
+  | cons add rest ih =>
+    intro cum fed hne hf hc hl
+    have hadd : add ≠ [] := hne add List.mem_cons_self
+    have hae : add.isEmpty = false := by cases add with | nil => exact absurd rfl hadd | cons _ _ => rfl
+    simp only [zlibWalkStream, hae, Bool.false_eq_true, if_false]
+    by_cases hdone : 0 < cum + add.length - L
+    · simp only [hdone, if_true]
+      have hleft : ¬ (cum + add.length - L = 0) := by omega
+      simp only [pyDropLast, pyTakeLast, hleft, if_false]
+      have e1 : add.length - (cum + add.length - L) = L - cum := by omega
+      rw [e1]
+      have htake : (fed ++ (add :: rest).flatten).take L = fed ++ add.take (L - cum) := by
+        simp only [List.flatten_cons]
+        rw [List.take_append, hf, List.take_of_length_le (by omega), List.take_append_of_le_length (by omega)]
+      refine ⟨add.drop (L - cum), rest.flatten, by rw [htake], ?_, ?_⟩
+      · rw [htake]
+        simp only [List.flatten_cons, List.append_assoc]
+        rw [← List.append_assoc (add.take _), List.take_append_drop]
+      · intro h
+        have := congrArg List.length h
+        simp at this
+        omega
+    · simp only [hdone, if_false]
+      have := ih (cum + add.length) (fed ++ add) (fun c hc' => hne c (List.mem_cons_of_mem _ hc'))
+        (by simp [hf]) (by omega) (by simpa [List.append_assoc] using hl)
+      simpa [List.append_assoc] using this
+
 end Dulwich.Pack
